@@ -56,7 +56,24 @@ fn item_alphabet() -> Vec<Vec<u8>> {
         b"ab".to_vec(),
         vec![b'z'; 64],
         (0..1024u32).map(|i| (i.wrapping_mul(131) ^ (i >> 3)) as u8).collect(),
+        // "gap items": one SHA3-256 word of each lies in p..2^32 for its column (about one item in
+        // 5.6 million does), so the reduction inside hash_to_state is exercised.  Found by brute
+        // force once; `check_gap_items` re-verifies the claim with the harness's own Keccak.
+        b"item-10585989".to_vec(),
+        b"item-16336805".to_vec(),
     ]
+}
+
+/// The last two alphabet items must really have a hash word at or above the column's prime.
+fn check_gap_items(items: &[Vec<u8>], p: &[u64; 8]) -> Result<(), String> {
+    for it in items.iter().rev().take(2) {
+        let d = sha3::sha3_256(it);
+        let cols = digest_to_cols(&d);
+        if !(0..8).any(|i| cols[i] as u64 >= p[i]) {
+            return Err(format!("{} is not a gap item", String::from_utf8_lossy(it)));
+        }
+    }
+    Ok(())
 }
 
 fn digest_to_cols(d: &[u8; 32]) -> Cols {
@@ -1194,6 +1211,7 @@ fn build_ctx(args: &Args, notes: &mut BTreeMap<String, Value>) -> Result<Ctx, St
     let mut p = [0u64; 8];
     p.copy_from_slice(&derived);
     let items = item_alphabet();
+    check_gap_items(&items, &p)?;
     // the Keccak written here against CPython's hashlib, on the alphabet and on framed entries
     let mut msgs = items.clone();
     for e in kv_entries(&items).iter().step_by(7) {
